@@ -50,8 +50,8 @@ func main() {
 	defer os.RemoveAll(tmp)
 	env := []string{"TMPDIR=" + tmp} // store directories of workers that die are removed with it
 
-	worker.Run(r, worker.Opts{Phase: "seq", Total: r.N(600, 15000), Batch: 50, Env: env})
-	worker.Run(r, worker.Opts{Phase: "conc", Total: r.N(1200, 60000), Batch: 100, Env: env})
+	worker.Run(r, worker.Opts{Phase: "seq", Total: r.N(600, 12000), Batch: 50, Env: env})
+	worker.Run(r, worker.Opts{Phase: "conc", Total: r.N(1200, 45000), Batch: 100, Env: env})
 	if bin := os.Getenv("VERIF_RACE_BIN"); bin != "" {
 		raceDir := filepath.Join(tmp, "racelogs")
 		os.MkdirAll(raceDir, 0o755)
@@ -61,7 +61,7 @@ func main() {
 	} else {
 		r.Inconclusive("no race binary (VERIF_RACE_BIN unset): race-detector phase skipped")
 	}
-	code := r.Write(r.N(800, 30000))
+	code := r.Write(r.N(800, 20000))
 	os.RemoveAll(tmp)
 	os.Exit(code)
 }
